@@ -301,7 +301,34 @@ func (x *X) backtrack() bool {
 // checkAssert decides an assertion query, on the one-shot back end if one is configured.
 func (x *X) checkAssert(extra []*T, want []*T) (smt.Result, []uint64) {
 	if x.Cfg.AssertSolver == "" {
-		return x.check(extra, want)
+		r, vals := x.check(extra, want)
+		if r != smt.Unknown {
+			return r, vals
+		}
+		// the incremental back end gave up: ask the other solvers one-shot before declaring
+		// the obligation inconclusive
+		as := append(append([]*T{}, x.pc...), extra...)
+		for _, kind := range []string{"z3", "cvc5"} {
+			t0 := time.Now()
+			r2, v2, _ := smt.OneShotValues(kind, x.B, as, want, x.Cfg.AssertTimeoutMs)
+			x.AuxQueries++
+			x.AuxTime += time.Since(t0)
+			switch r2 {
+			case smt.Sat:
+				x.AuxSat++
+				x.S.NUnk--
+				x.note("assertion decided by fallback solver " + kind)
+				return r2, v2
+			case smt.Unsat:
+				x.AuxUnsat++
+				x.S.NUnk--
+				x.note("assertion decided by fallback solver " + kind)
+				return r2, v2
+			default:
+				x.AuxUnk++
+			}
+		}
+		return r, vals
 	}
 	as := append(append([]*T{}, x.pc...), extra...)
 	t0 := time.Now()
